@@ -1,13 +1,15 @@
 import Fips204.Impl.Api
 import Fips204.Lemmas.Arith
 import Fips204.Props.C10
+import Fips204.Lemmas.KeyDecode
 /-!
 # C09 — key serialisation round-trips exactly and preserves behaviour
 
 Proved for all byte strings and oracles: where the fields of a deserialised key come from - rho / K / tr are
 the corresponding slices of the input, the public key's tr is H(input bytes) - and that an accepted private key
 has coefficient sections inside the ranges the serialiser's own self-check demands (C10), so re-serialisation
-cannot trip it.  Not proved: `into_bytes ∘ try_from_bytes = id` for every input, which is exact NTT inversion
+cannot trip it.  Proved as well: **every** byte string of public-key length deserialises (no rejection, no fault).
+Not proved: `into_bytes ∘ try_from_bytes = id` for every input, which is exact NTT inversion
 (C18) composed with the codec bijections (C08); decided on every run on extremal and random keys, both profiles.
 -/
 namespace Fips204.Props.C09
@@ -60,5 +62,15 @@ theorem accepted_sk_sections_in_range (m : Mode) (p : ParamSet) (skb : List Nat)
     (∀ q ∈ s.s1, ∀ c ∈ q, -p.eta ≤ c ∧ c ≤ p.eta) ∧ (∀ q ∈ s.s2, ∀ c ∈ q, -p.eta ≤ c ∧ c ≤ p.eta) ∧
     (∀ q ∈ s.t0, ∀ c ∈ q, -(top - 1) ≤ c ∧ c ≤ top) :=
   C10.skDecode_accepts_only_in_range m p skb s he h
+
+/-- **every byte string of public-key length deserialises successfully** (first clause of the property), in both build
+    modes: no rejection (10-bit fields always fit [0, 1023]), no overflow in the verifier precompute; rho is the first
+    32 bytes and tr the hash of the encoding -/
+theorem every_pk_string_deserialises (m : Mode) (O : Oracles) (p : ParamSet) (hp : p ∈ [ml_dsa_44, ml_dsa_65, ml_dsa_87])
+    (pkb : List Nat) (hb : ∀ x ∈ pkb, x < 256) (hlen : pkb.length = p.pkLen) :
+    ∃ pk : PublicKey, expandPublic m O p pkb = .ok (some pk) ∧ pk.rho = pkb.take 32 ∧ pk.tr = O.h pkb 64 :=
+  have hcfg := pk_config_ok p hp
+  let ⟨pk, h1, h2, h3, _⟩ := expandPublic_total m O p pkb hb (by rw [hlen, hcfg]) hcfg
+  ⟨pk, h1, h2, h3⟩
 
 end Fips204.Props.C09
